@@ -203,6 +203,15 @@ def emit(meta, gen_path, wrap_impls=None):
     for name, pat in ASSUMPTION_PATTERNS:
         scan[name] = len(pat.findall(text))
     meta["assumption_scan"] = scan
+    # names of everything that is assumed rather than verified in the generated input (mechanical list for the evidence)
+    names = []
+    for m in re.finditer(r"#\[verifier::external_body\]\s*(?:#\[[^\]]*\]\s*)*(?:pub\s+)?(?:(?:open|closed|proof|exec)\s+)*(fn|struct)\s+(\w+)", text):
+        names.append(f"external_body {m.group(1)} {m.group(2)}")
+    for m in re.finditer(r"assume_specification(?:<[^\[]*>)?\s*\[\s*(.+?)\s*\]\s*\(", text):
+        names.append("assume_specification " + re.sub(r"\s+", " ", m.group(1)))
+    for m in re.finditer(r"uninterp\s+spec\s+fn\s+(\w+)", text):
+        names.append(f"uninterpreted spec fn {m.group(1)}")
+    meta["assumed_names"] = sorted(set(names))
     return meta
 
 
